@@ -23,6 +23,9 @@ pub enum GitAiError { Generic(String) }
 /// start of line i, or the end of the text when there is no such line (what line_range_to_byte_range returns)
 spec fn lines_start(lines: Seq<LineMetadata>, i: int, len: int) -> int { if 0 <= i < lines.len() { lines[i].start as int } else { len } }
 spec fn lines_end(lines: Seq<LineMetadata>, e: int, len: int) -> int { if 0 <= e - 1 < lines.len() { lines[e - 1].end as int } else { len } }
+/// byte range line_range_to_byte_range gives for the lines [s, e): empty at the start of line s when s >= e
+spec fn hunk_lo(lines: Seq<LineMetadata>, s: int, len: int) -> int { lines_start(lines, s, len) }
+spec fn hunk_hi(lines: Seq<LineMetadata>, s: int, e: int, len: int) -> int { if s >= e { lines_start(lines, s, len) } else { lines_end(lines, e, len) } }
 /// every line bound of the table is a character boundary of the text (lines are split at '\n', an ASCII byte)
 spec fn lines_on_boundaries(lines: Seq<LineMetadata>, bytes: Seq<u8>) -> bool {
     forall|i: int| 0 <= i < lines.len() ==> is_char_boundary(bytes, (#[trigger] lines[i]).start as int) && is_char_boundary(bytes, lines[i].end as int)
@@ -33,7 +36,7 @@ fn opq_extend_ranges(v: &mut Vec<(usize, usize)>, t: Vec<(usize, usize)>)
 { unimplemented!() }
 #[verifier::external_body]
 fn opq_append_diffs(v: &mut Vec<ByteDiff>, t: &mut Vec<ByteDiff>)
-    ensures final(v)@.len() >= old(v)@.len(),
+    ensures final(v)@ =~= old(v)@ + old(t)@,
 { unimplemented!() }
 
 //#item file=src/authorship/attribution_tracker.rs kind=struct name=DiffComputation
@@ -75,6 +78,14 @@ fn build_token_aligned_diffs(
     old_start_line: usize,
     new_start_line: usize,
 ) -> (r_: (Vec<ByteDiff>, Vec<(usize, usize)>))
+//@     requires
+//@         old_range.0 <= old_range.1 <= old_content.spec_bytes().len(), new_range.0 <= new_range.1 <= new_content.spec_bytes().len(),
+//@         is_char_boundary(old_content.spec_bytes(), old_range.0 as int), is_char_boundary(old_content.spec_bytes(), old_range.1 as int),
+//@         is_char_boundary(new_content.spec_bytes(), new_range.0 as int), is_char_boundary(new_content.spec_bytes(), new_range.1 as int),
+//@     ensures
+//@         // ASSUMED here (the body is not verified in this unit): the token-aligned segments re-concatenate to the two byte ranges
+//@         old_side(r_.0@) =~= old_content.spec_bytes().subrange(old_range.0 as int, old_range.1 as int),
+//@         new_side(r_.0@) =~= new_content.spec_bytes().subrange(new_range.0 as int, new_range.1 as int),
 {
     let (old_start, old_end) = old_range;
     let (new_start, new_end) = new_range;
@@ -250,6 +261,223 @@ fn build_token_aligned_diffs(
     (diffs, substantive_ranges)
 }
 //#end
+// ---------------------------------------------------------------- compute_diffs: the segments re-concatenate to the two texts
+/// the line table tiles the text: no gap, no overlap, no empty line, first line at 0, last line ends at the end
+#[verifier::opaque]
+spec fn lines_tile(lines: Seq<LineMetadata>, len: int) -> bool {
+    &&& lines.len() == 0 ==> len == 0
+    &&& lines.len() > 0 ==> lines[0].start == 0 && lines[lines.len() - 1].end == len
+    &&& forall|i: int| 0 <= i < lines.len() ==> (#[trigger] lines[i]).start < lines[i].end
+    &&& forall|i: int, j: int| 0 <= i && j == i + 1 && j < lines.len() ==> (#[trigger] lines[i]).end == (#[trigger] lines[j]).start
+}
+/// where the first i ops end on one side (0 before the first op)
+spec fn prev_end(ops: Seq<DiffOp>, for_old: bool, i: int) -> int { if i <= 0 { 0 } else { op_span(ops[i - 1], for_old).1 } }
+/// the ops tile the index space [0, total) of one side: each starts where the previous one ended
+#[verifier::opaque]
+spec fn ops_tile(ops: Seq<DiffOp>, for_old: bool, total: int) -> bool {
+    &&& forall|i: int| 0 <= i < ops.len() ==> op_span(#[trigger] ops[i], for_old).0 == prev_end(ops, for_old, i)
+    &&& prev_end(ops, for_old, ops.len() as int) == total
+}
+/// an Equal op stands for lines with identical bytes on both sides (what a diff's Equal means)
+#[verifier::opaque]
+spec fn equal_ops_match(ops: Seq<DiffOp>, ol: Seq<LineMetadata>, nl: Seq<LineMetadata>, ob: Seq<u8>, nb: Seq<u8>) -> bool {
+    forall|i: int| 0 <= i < ops.len() && (#[trigger] ops[i]) is Equal ==>
+        ob.subrange(lines_start(ol, ops[i]->Equal_old_index as int, ob.len() as int), lines_start(ol, ops[i]->Equal_old_index + ops[i]->Equal_len, ob.len() as int))
+        =~= nb.subrange(lines_start(nl, ops[i]->Equal_new_index as int, nb.len() as int), lines_start(nl, ops[i]->Equal_new_index + ops[i]->Equal_len, nb.len() as int))
+}
+proof fn lemma_tile_le(ops: Seq<DiffOp>, for_old: bool, total: int, i: int, j: int)
+    requires ops_tile(ops, for_old, total), 0 <= i <= j <= ops.len(),
+    ensures prev_end(ops, for_old, i) <= prev_end(ops, for_old, j),
+    decreases j - i
+{
+    reveal(ops_tile);
+    if i < j {
+        lemma_tile_le(ops, for_old, total, i, j - 1);
+        assert(op_span(ops[j - 1], for_old).0 == prev_end(ops, for_old, j - 1));
+        assert(op_span(ops[j - 1], for_old).0 <= op_span(ops[j - 1], for_old).1);
+    }
+}
+proof fn lemma_tile_mono(ops: Seq<DiffOp>, for_old: bool, total: int, i: int, j: int)
+    requires ops_tile(ops, for_old, total), 0 <= i <= j <= ops.len(),
+    ensures 0 <= prev_end(ops, for_old, i) <= prev_end(ops, for_old, j) <= total,
+{
+    reveal(ops_tile);
+    lemma_tile_le(ops, for_old, total, 0, i);
+    lemma_tile_le(ops, for_old, total, i, j);
+    lemma_tile_le(ops, for_old, total, j, ops.len() as int);
+}
+proof fn lemma_pos_step(lines: Seq<LineMetadata>, len: int, i: int)
+    requires lines_tile(lines, len), 0 <= i < lines.len(),
+    ensures 0 <= lines_start(lines, i, len) < lines_start(lines, i + 1, len), lines_end(lines, i + 1, len) == lines_start(lines, i + 1, len),
+{
+    reveal(lines_tile);
+    if i + 1 < lines.len() { assert(lines[i].end == lines[i + 1].start); }
+}
+proof fn lemma_pos_le(lines: Seq<LineMetadata>, len: int, i: int, j: int)
+    requires lines_tile(lines, len), 0 <= i <= j <= lines.len(),
+    ensures lines_start(lines, i, len) <= lines_start(lines, j, len), i < j ==> lines_start(lines, i, len) < lines_start(lines, j, len),
+    decreases j - i
+{
+    if i < j { lemma_pos_le(lines, len, i, j - 1); lemma_pos_step(lines, len, j - 1); }
+}
+proof fn lemma_lines_pos(lines: Seq<LineMetadata>, len: int, i: int, j: int)
+    requires lines_tile(lines, len), 0 <= i <= j <= lines.len(),
+    ensures
+        0 <= lines_start(lines, i, len) <= lines_start(lines, j, len) <= len,
+        j >= 1 ==> lines_end(lines, j, len) == lines_start(lines, j, len),
+        i < j ==> lines_start(lines, i, len) < lines_start(lines, j, len),
+        i == 0 ==> lines_start(lines, i, len) == 0,
+{
+    lemma_pos_le(lines, len, i, j);
+    lemma_pos_le(lines, len, j, lines.len() as int);
+    lemma_pos_le(lines, len, 0, i);
+    if j >= 1 { lemma_pos_step(lines, len, j - 1); }
+    reveal(lines_tile);
+}
+proof fn lemma_tile_wf(lines: Seq<LineMetadata>, len: int)
+    requires lines_tile(lines, len),
+    ensures wf_lines(lines, len),
+{
+    assert forall|i: int| 0 <= i < lines.len() implies (#[trigger] lines[i]).start <= lines[i].end && lines[i].end <= len by {
+        lemma_pos_step(lines, len, i); lemma_lines_pos(lines, len, i + 1, lines.len() as int);
+        assert(lines[i].end as int == lines_end(lines, i + 1, len)); assert(lines[i].start as int == lines_start(lines, i, len));
+    }
+    assert forall|i: int, j: int| 0 <= i < j < lines.len() implies (#[trigger] lines[i]).end <= (#[trigger] lines[j]).start by {
+        lemma_pos_step(lines, len, i); lemma_lines_pos(lines, len, i + 1, j);
+        assert(lines[i].end as int == lines_end(lines, i + 1, len)); assert(lines[j].start as int == lines_start(lines, j, len));
+    }
+}
+/// the fold of hunk_line_bounds over a run ops[p..k) of a tiling is exactly (end before p, end before k)
+proof fn lemma_hunk_bounds_of_run(ops: Seq<DiffOp>, for_old: bool, total: int, p: int, k: int)
+    requires ops_tile(ops, for_old, total), 0 <= p < k <= ops.len(), total < usize::MAX,
+    ensures
+        fold_start(ops.subrange(p, k), for_old, k - p) == prev_end(ops, for_old, p),
+        fold_end(ops.subrange(p, k), for_old, k - p) == prev_end(ops, for_old, k),
+    decreases k - p
+{
+    reveal(ops_tile);
+    let run = ops.subrange(p, k);
+    lemma_tile_mono(ops, for_old, total, p, k);
+    lemma_tile_mono(ops, for_old, total, k - 1, k);
+    lemma_tile_mono(ops, for_old, total, p, k - 1);
+    assert(run[k - p - 1] == ops[k - 1]);
+    if k - 1 > p {
+        lemma_hunk_bounds_of_run(ops, for_old, total, p, k - 1);
+        lemma_fold_prefix(run, ops.subrange(p, k - 1), for_old, k - p - 1);
+    } else {
+        assert(fold_start(run, for_old, 0) == usize::MAX as int);
+        assert(fold_end(run, for_old, 0) == 0);
+    }
+}
+/// the folds only look at the first k ops
+proof fn lemma_fold_prefix(a: Seq<DiffOp>, b: Seq<DiffOp>, for_old: bool, k: int)
+    requires 0 <= k <= a.len(), k <= b.len(), forall|i: int| 0 <= i < k ==> a[i] == b[i],
+    ensures fold_start(a, for_old, k) == fold_start(b, for_old, k), fold_end(a, for_old, k) == fold_end(b, for_old, k),
+    decreases k
+{
+    if k > 0 { lemma_fold_prefix(a, b, for_old, k - 1); }
+}
+/// state of the loop of compute_diffs after k ops, the last k - p of them (all changes) still pending
+spec fn compute_inv(ops: Seq<DiffOp>, k: int, p: int, pending: Seq<DiffOp>, d: Seq<ByteDiff>, ol: Seq<LineMetadata>, nl: Seq<LineMetadata>, ob: Seq<u8>, nb: Seq<u8>) -> bool {
+    &&& 0 <= p <= k <= ops.len()
+    &&& pending =~= ops.subrange(p, k)
+    &&& forall|j: int| p <= j < k ==> !((#[trigger] ops[j]) is Equal)
+    &&& old_side(d) =~= ob.subrange(0, lines_start(ol, prev_end(ops, true, p), ob.len() as int))
+    &&& new_side(d) =~= nb.subrange(0, lines_start(nl, prev_end(ops, false, p), nb.len() as int))
+}
+
+proof fn lemma_run_facts(ops: Seq<DiffOp>, ol: Seq<LineMetadata>, nl: Seq<LineMetadata>, ob: Seq<u8>, nb: Seq<u8>, p: int, k: int)
+    requires ops_tile(ops, true, ol.len() as int), ops_tile(ops, false, nl.len() as int), 0 <= p <= k <= ops.len(), ol.len() < usize::MAX, nl.len() < usize::MAX,
+    ensures spans_fit(ops.subrange(p, k), true), spans_fit(ops.subrange(p, k), false),
+{
+    let run = ops.subrange(p, k);
+    assert forall|i: int| 0 <= i < run.len() implies op_span(#[trigger] run[i], true).1 <= usize::MAX && op_span(run[i], false).1 <= usize::MAX by {
+        assert(run[i] == ops[p + i]);
+        lemma_tile_mono(ops, true, ol.len() as int, p + i, p + i + 1);
+        lemma_tile_mono(ops, false, nl.len() as int, p + i, p + i + 1);
+    }
+}
+/// one side of lemma_after_hunk
+proof fn lemma_hunk_side(ops: Seq<DiffOp>, for_old: bool, lines: Seq<LineMetadata>, bytes: Seq<u8>, p: int, k: int, side0: Seq<u8>, side_app: Seq<u8>)
+    requires
+        ops_tile(ops, for_old, lines.len() as int), lines_tile(lines, bytes.len() as int), 0 <= p < k <= ops.len(), lines.len() < usize::MAX,
+        side0 =~= bytes.subrange(0, lines_start(lines, prev_end(ops, for_old, p), bytes.len() as int)),
+        side_app =~= bytes.subrange(hunk_lo(lines, hunk_bounds(ops.subrange(p, k), for_old).0, bytes.len() as int),
+                                    hunk_hi(lines, hunk_bounds(ops.subrange(p, k), for_old).0, hunk_bounds(ops.subrange(p, k), for_old).1, bytes.len() as int)),
+    ensures side0 + side_app =~= bytes.subrange(0, lines_start(lines, prev_end(ops, for_old, k), bytes.len() as int)),
+{
+    let len = bytes.len() as int;
+    let s = prev_end(ops, for_old, p); let e = prev_end(ops, for_old, k);
+    lemma_hunk_bounds_of_run(ops, for_old, lines.len() as int, p, k);
+    lemma_tile_mono(ops, for_old, lines.len() as int, p, k);
+    lemma_tile_mono(ops, for_old, lines.len() as int, k, ops.len() as int);
+    assert(ops.subrange(p, k).len() == k - p);
+    assert(hunk_bounds(ops.subrange(p, k), for_old) == (s, e));
+    lemma_lines_pos(lines, len, s, e);
+    lemma_lines_pos(lines, len, 0, s);
+}
+proof fn lemma_after_hunk(ops: Seq<DiffOp>, ol: Seq<LineMetadata>, nl: Seq<LineMetadata>, ob: Seq<u8>, nb: Seq<u8>, p: int, k: int, d0: Seq<ByteDiff>, d1: Seq<ByteDiff>)
+    requires
+        ops_tile(ops, true, ol.len() as int), ops_tile(ops, false, nl.len() as int), lines_tile(ol, ob.len() as int), lines_tile(nl, nb.len() as int),
+        0 <= p < k <= ops.len(), ol.len() < usize::MAX, nl.len() < usize::MAX,
+        old_side(d0) =~= ob.subrange(0, lines_start(ol, prev_end(ops, true, p), ob.len() as int)),
+        new_side(d0) =~= nb.subrange(0, lines_start(nl, prev_end(ops, false, p), nb.len() as int)),
+        d1.len() >= d0.len(), d1.subrange(0, d0.len() as int) =~= d0,
+        ({
+            let run = ops.subrange(p, k); let app = d1.subrange(d0.len() as int, d1.len() as int);
+            let hb = hunk_bounds(run, true); let hn = hunk_bounds(run, false);
+            &&& old_side(app) =~= ob.subrange(hunk_lo(ol, hb.0, ob.len() as int), hunk_hi(ol, hb.0, hb.1, ob.len() as int))
+            &&& new_side(app) =~= nb.subrange(hunk_lo(nl, hn.0, nb.len() as int), hunk_hi(nl, hn.0, hn.1, nb.len() as int))
+        }),
+    ensures
+        old_side(d1) =~= ob.subrange(0, lines_start(ol, prev_end(ops, true, k), ob.len() as int)),
+        new_side(d1) =~= nb.subrange(0, lines_start(nl, prev_end(ops, false, k), nb.len() as int)),
+{
+    let app = d1.subrange(d0.len() as int, d1.len() as int);
+    assert(d1 =~= d0 + app);
+    lemma_sides_add(d0, app);
+    lemma_hunk_side(ops, true, ol, ob, p, k, old_side(d0), old_side(app));
+    lemma_hunk_side(ops, false, nl, nb, p, k, new_side(d0), new_side(app));
+}
+proof fn lemma_after_equal(ops: Seq<DiffOp>, ol: Seq<LineMetadata>, nl: Seq<LineMetadata>, ob: Seq<u8>, nb: Seq<u8>, k: int, d1: Seq<ByteDiff>, d2: Seq<ByteDiff>)
+    requires
+        ops_tile(ops, true, ol.len() as int), ops_tile(ops, false, nl.len() as int), lines_tile(ol, ob.len() as int), lines_tile(nl, nb.len() as int),
+        equal_ops_match(ops, ol, nl, ob, nb), 0 <= k < ops.len(), ops[k] is Equal,
+        old_side(d1) =~= ob.subrange(0, lines_start(ol, prev_end(ops, true, k), ob.len() as int)),
+        new_side(d1) =~= nb.subrange(0, lines_start(nl, prev_end(ops, false, k), nb.len() as int)),
+        // what push_equal_lines guarantees
+        d2.len() >= d1.len(), d2.subrange(0, d1.len() as int) =~= d1, d2.len() <= d1.len() + 1,
+        d2.len() == d1.len() + 1 ==> (bd_op(d2.last()) == ByteDiffOp::Equal && bd_data(d2.last()).len() > 0
+            && bd_data(d2.last()) =~= ob.subrange(lines_start(ol, ops[k]->Equal_old_index as int, ob.len() as int), lines_end(ol, ops[k]->Equal_old_index + ops[k]->Equal_len, ob.len() as int))),
+        ops[k]->Equal_len == 0 ==> d2 =~= d1,
+        d2.len() == d1.len() ==> (ops[k]->Equal_len == 0
+            || lines_start(ol, ops[k]->Equal_old_index as int, ob.len() as int) >= lines_end(ol, ops[k]->Equal_old_index + ops[k]->Equal_len, ob.len() as int)),
+    ensures
+        old_side(d2) =~= ob.subrange(0, lines_start(ol, prev_end(ops, true, k + 1), ob.len() as int)),
+        new_side(d2) =~= nb.subrange(0, lines_start(nl, prev_end(ops, false, k + 1), nb.len() as int)),
+{
+    reveal(ops_tile); reveal(equal_ops_match);
+    let olen = ob.len() as int; let nlen = nb.len() as int;
+    let oi = ops[k]->Equal_old_index as int; let ni = ops[k]->Equal_new_index as int; let len = ops[k]->Equal_len as int;
+    lemma_tile_mono(ops, true, ol.len() as int, k, k + 1); lemma_tile_mono(ops, false, nl.len() as int, k, k + 1);
+    lemma_tile_mono(ops, true, ol.len() as int, k + 1, ops.len() as int); lemma_tile_mono(ops, false, nl.len() as int, k + 1, ops.len() as int);
+    assert(oi == prev_end(ops, true, k) && ni == prev_end(ops, false, k));
+    assert(oi + len == prev_end(ops, true, k + 1) && ni + len == prev_end(ops, false, k + 1));
+    lemma_lines_pos(ol, olen, oi, oi + len); lemma_lines_pos(nl, nlen, ni, ni + len);
+    lemma_lines_pos(ol, olen, 0, oi); lemma_lines_pos(nl, nlen, 0, ni);
+    if len == 0 {
+        assert(d2 =~= d1);
+    } else {
+        assert(d2.len() == d1.len() + 1);
+        let x = d2.last();
+        assert(d2 =~= d1.push(x));
+        lemma_sides_push(d1, x);
+        let data = ob.subrange(lines_start(ol, oi, olen), lines_start(ol, oi + len, olen));
+        assert(bd_data(x) =~= data);
+        assert(data =~= nb.subrange(lines_start(nl, ni, nlen), lines_start(nl, ni + len, nlen)));
+    }
+}
+
 impl AttributionTracker {
 //#item file=src/authorship/attribution_tracker.rs kind=fn name=push_equal_lines impl="AttributionTracker"
     fn push_equal_lines(
@@ -267,6 +495,10 @@ impl AttributionTracker {
     //@         final(diffs)@.len() >= old(diffs)@.len(), final(diffs)@.subrange(0, old(diffs)@.len() as int) =~= old(diffs)@,
     //@         // at most one segment is appended: an Equal segment holding exactly the bytes of the old lines the op spans
     //@         final(diffs)@.len() <= old(diffs)@.len() + 1,
+    //@         (op is Equal && op->Equal_len == 0) ==> final(diffs)@ =~= old(diffs)@,
+    //@         // nothing is appended only when the lines span no bytes
+    //@         (op is Equal && final(diffs)@.len() == old(diffs)@.len()) ==> (op->Equal_len == 0
+    //@             || lines_start(old_lines@, op->Equal_old_index as int, old_content.spec_bytes().len() as int) >= lines_end(old_lines@, op->Equal_old_index + op->Equal_len, old_content.spec_bytes().len() as int)),
     //@         final(diffs)@.len() == old(diffs)@.len() + 1 ==> (bd_op(final(diffs)@.last()) == ByteDiffOp::Equal && bd_data(final(diffs)@.last()).len() > 0 && op is Equal
     //@             && bd_data(final(diffs)@.last()) =~= old_content.spec_bytes().subrange(
     //@                    lines_start(old_lines@, op->Equal_old_index as int, old_content.spec_bytes().len() as int),
@@ -315,7 +547,18 @@ impl AttributionTracker {
     //@         // (the call of append_range_diffs inside is checked against ITS precondition: forward ranges inside both texts on
     //@         //  char boundaries - that call-site obligation is what this function contributes to C16)
     //@         final(computation).diffs@.len() >= old(computation).diffs@.len(),
+    //@         final(computation).diffs@.subrange(0, old(computation).diffs@.len() as int) =~= old(computation).diffs@,
+    //@         ops@.len() == 0 ==> final(computation).diffs@ =~= old(computation).diffs@,
+    //@         // the appended segments re-concatenate to the hunk's two byte ranges (the lines hunk_line_bounds selects)
+    //@         ops@.len() > 0 ==> ({
+    //@             let app = final(computation).diffs@.subrange(old(computation).diffs@.len() as int, final(computation).diffs@.len() as int);
+    //@             let ol = old_content.spec_bytes().len() as int; let nl = new_content.spec_bytes().len() as int;
+    //@             let ob = hunk_bounds(ops@, true); let nb = hunk_bounds(ops@, false);
+    //@             &&& old_side(app) =~= old_content.spec_bytes().subrange(hunk_lo(old_lines@, ob.0, ol), hunk_hi(old_lines@, ob.0, ob.1, ol))
+    //@             &&& new_side(app) =~= new_content.spec_bytes().subrange(hunk_lo(new_lines@, nb.0, nl), hunk_hi(new_lines@, nb.0, nb.1, nl))
+    //@         }),
     {
+        //@ let ghost d0 = computation.diffs@;
         if ops.is_empty() {
             return Ok(());
         }
@@ -366,11 +609,95 @@ impl AttributionTracker {
             new_start_line + 1,
         );
 
+        //@ let ghost hd = hunk_diffs@;
         opq_append_diffs(&mut computation.diffs, &mut hunk_diffs);
+        //@ proof { assert(computation.diffs@.subrange(d0.len() as int, computation.diffs@.len() as int) =~= hd); }
         opq_extend_ranges(&mut computation.substantive_new_ranges, substantive_ranges);
 
         Ok(())
     }
+//#end
+//#item file=src/authorship/attribution_tracker.rs kind=region name=compute_loop in=compute_diffs from="for op in line_ops.into_iter() {" to="computation.substantive_new_ranges = merge_ranges(computation.substantive_new_ranges);" from_nth=0 to_nth=0 impl="AttributionTracker" to_exclusive=yes
+    //@ fn region_compute_loop(&self, line_ops: Vec<DiffOp>, old_lines: Vec<LineMetadata>, new_lines: Vec<LineMetadata>, old_content: &str, new_content: &str, computation0: DiffComputation, pending0: Vec<DiffOp>) -> (r_: Result<DiffComputation, GitAiError>)
+    //@     requires
+    //@         computation0.diffs@.len() == 0, pending0@.len() == 0,
+    //@         // ASSUMED about the callees that produce these values (collect_line_metadata: char_indices loop; capture_diff_slices: imara-diff)
+    //@         lines_tile(old_lines@, old_content.spec_bytes().len() as int), lines_tile(new_lines@, new_content.spec_bytes().len() as int),
+    //@         lines_on_boundaries(old_lines@, old_content.spec_bytes()), lines_on_boundaries(new_lines@, new_content.spec_bytes()),
+    //@         ops_tile(line_ops@, true, old_lines@.len() as int), ops_tile(line_ops@, false, new_lines@.len() as int),
+    //@         equal_ops_match(line_ops@, old_lines@, new_lines@, old_content.spec_bytes(), new_content.spec_bytes()),
+    //@         old_lines@.len() < usize::MAX, new_lines@.len() < usize::MAX,
+    //@     ensures
+    //@         // the byte segments re-concatenate to the two inputs: every byte of either text is in exactly one segment, in order
+    //@         r_ is Ok,
+    //@         old_side(r_->Ok_0.diffs@) =~= old_content.spec_bytes(),
+    //@         new_side(r_->Ok_0.diffs@) =~= new_content.spec_bytes(),
+    //@ {
+    //@     let mut computation = computation0; let mut pending_changed = pending0;
+    //@     let ghost ops = line_ops@; let ghost ol = old_lines@; let ghost nl = new_lines@;
+    //@     let ghost ob = old_content.spec_bytes(); let ghost nb = new_content.spec_bytes();
+    //@     let ghost mut p: int = 0;
+    //@     proof { lemma_tile_wf(ol, ob.len() as int); lemma_tile_wf(nl, nb.len() as int); lemma_sides_0(computation.diffs@); lemma_lines_pos(ol, ob.len() as int, 0, 0); lemma_lines_pos(nl, nb.len() as int, 0, 0); }
+        for op in it_0: line_ops.into_iter()
+        //@     invariant
+        //@         ops == it_0.snapshot@.remaining(), ol == old_lines@, nl == new_lines@, ob == old_content.spec_bytes(), nb == new_content.spec_bytes(),
+        //@         lines_tile(ol, ob.len() as int), lines_tile(nl, nb.len() as int), wf_lines(ol, ob.len() as int), wf_lines(nl, nb.len() as int),
+        //@         lines_on_boundaries(ol, ob), lines_on_boundaries(nl, nb),
+        //@         ops_tile(ops, true, ol.len() as int), ops_tile(ops, false, nl.len() as int), equal_ops_match(ops, ol, nl, ob, nb),
+        //@         ol.len() < usize::MAX, nl.len() < usize::MAX,
+        //@         compute_inv(ops, it_0.index@, p, pending_changed@, computation.diffs@, ol, nl, ob, nb),
+        {
+            //@ let ghost k = it_0.index@;
+            //@ proof { assert(op == ops[k]); lemma_tile_mono(ops, true, ol.len() as int, p, k); lemma_tile_mono(ops, false, nl.len() as int, p, k); lemma_tile_mono(ops, true, ol.len() as int, k, k + 1); lemma_tile_mono(ops, false, nl.len() as int, k, k + 1); }
+            if matches!(op, DiffOp::Equal { .. }) {
+                if !pending_changed.is_empty() {
+                    //@ let ghost d0 = computation.diffs@;
+                    //@ proof { lemma_run_facts(ops, ol, nl, ob, nb, p, k); }
+                    self.process_changed_hunk(
+                        &pending_changed,
+                        &old_lines,
+                        &new_lines,
+                        old_content,
+                        new_content,
+                        &mut computation,
+                    )?;
+                    //@ proof { lemma_after_hunk(ops, ol, nl, ob, nb, p, k, d0, computation.diffs@); p = k; }
+                    pending_changed.clear();
+                }
+                //@ proof { assert(p == k) by { if p < k { assert(pending_changed@.len() == 0); assert(ops.subrange(p, k).len() == k - p); } } }
+
+                //@ let ghost d1 = computation.diffs@;
+                self.push_equal_lines(op, &old_lines, old_content, &mut computation.diffs)?;
+                //@ proof { lemma_after_equal(ops, ol, nl, ob, nb, k, d1, computation.diffs@); p = k + 1; assert(ops.subrange(k + 1, k + 1) =~= pending_changed@); }
+            } else {
+                //@ let ghost pc0 = pending_changed@;
+                pending_changed.push(op);
+                //@ proof { assert(pending_changed@ =~= ops.subrange(p, k + 1)); }
+            }
+        }
+
+        //@ let ghost n = ops.len() as int;
+        //@ proof { lemma_tile_mono(ops, true, ol.len() as int, p, n); lemma_tile_mono(ops, false, nl.len() as int, p, n); }
+        if !pending_changed.is_empty() {
+            //@ let ghost d0 = computation.diffs@;
+            //@ proof { lemma_run_facts(ops, ol, nl, ob, nb, p, n); }
+            self.process_changed_hunk(
+                &pending_changed,
+                &old_lines,
+                &new_lines,
+                old_content,
+                new_content,
+                &mut computation,
+            )?;
+            //@ proof { lemma_after_hunk(ops, ol, nl, ob, nb, p, n, d0, computation.diffs@); p = n; }
+        }
+    //@     proof {
+    //@         assert(p == n) by { if p < n { assert(ops.subrange(p, n).len() == n - p); } }
+    //@         assert(prev_end(ops, true, n) == ol.len() && prev_end(ops, false, n) == nl.len()) by { reveal(ops_tile); }
+    //@         assert(ob.subrange(0, ob.len() as int) =~= ob); assert(nb.subrange(0, nb.len() as int) =~= nb);
+    //@     }
+    //@     Ok(computation)
+    //@ }
 //#end
 }
 
